@@ -1125,6 +1125,59 @@ def dict_iteration_forms(fn: ast.FunctionDef, ref_fn: dict) -> None:
     ast.fix_missing_locations(fn)
 
 
+def specialise_constant_tail(fn: ast.FunctionDef, ref_fn: dict) -> None:
+    """A branch that ends in `x = <literal>` and falls through to the short closing tail of the function (`self.pos += x` /
+    `return x`): where the reference returns that literal directly (`return 0`), the tail is copied into the branch with the
+    literal in place of x and folded (`self.pos += 0` goes, `return 0` stays)."""
+    ref_lines = {l.strip() for l in ref_fn.get("src", "").splitlines()}
+    blk = fn.body
+    for i, st in enumerate(blk):
+        if not isinstance(st, ast.If):
+            continue
+        tail = blk[i + 1:]
+        if not tail or len(tail) > 3 or not isinstance(tail[-1], ast.Return) or any(not isinstance(t, (ast.Assign, ast.AugAssign, ast.Expr, ast.Return)) for t in tail):
+            continue
+
+        def leaves(stmts, out):
+            if not stmts:
+                return
+            last = stmts[-1]
+            if isinstance(last, ast.If):
+                leaves(last.body, out)
+                leaves(last.orelse, out)
+            elif isinstance(last, ast.Assign) and len(last.targets) == 1 and isinstance(last.targets[0], ast.Name) and isinstance(last.value, ast.Constant):
+                out.append(stmts)
+        found = []
+        leaves(st.body, found)
+        leaves(st.orelse, found)
+        for lf in found:
+            x, c = lf[-1].targets[0].id, lf[-1].value
+            if f"return {_u(c)}" not in ref_lines:
+                continue
+            if not any(isinstance(n, ast.Name) and n.id == x for t in tail for n in ast.walk(t)):
+                continue
+            if any(isinstance(n, ast.Name) and n.id == x and isinstance(n.ctx, ast.Store) for t in tail for n in ast.walk(t)):
+                continue
+            new_tail = []
+            for t in tail:
+                t2 = copy.deepcopy(t)
+                for parent in ast.walk(t2):
+                    for fld, val in ast.iter_fields(parent):
+                        if isinstance(val, ast.Name) and val.id == x and isinstance(val.ctx, ast.Load):
+                            setattr(parent, fld, copy.deepcopy(c))
+                        elif isinstance(val, list):
+                            for k, v in enumerate(val):
+                                if isinstance(v, ast.Name) and v.id == x and isinstance(v.ctx, ast.Load):
+                                    val[k] = copy.deepcopy(c)
+                # `t += 0` / `t -= 0` on a number changes nothing
+                if isinstance(t2, ast.AugAssign) and isinstance(t2.op, (ast.Add, ast.Sub)) and isinstance(t2.value, ast.Constant) and t2.value.value == 0 and type(t2.value.value) is int:
+                    continue
+                new_tail.append(t2)
+            lf[-1:] = new_tail
+            ast.fix_missing_locations(fn)
+            return specialise_constant_tail(fn, ref_fn)
+
+
 def thread_none_flag(fn: ast.FunctionDef, known) -> None:
     """`if A: t = None else: t = E` directly followed by `if t is None: X` with X leaving the function and E a value that is
     never None (arithmetic, len(), a non-None literal): the flag variable is threaded away -- `if A: X`, then `t = E` and the rest."""
